@@ -1,5 +1,6 @@
 import MmtkModel.Model.SideMetaSearch
 import MmtkModel.Props.C21
+import MmtkModel.Lemmas.SideSearch
 /-!
 # C22 — Side-metadata search and scan agree with a naive scan
 
@@ -24,7 +25,10 @@ Full statements (not proved here):
   no unmapped data region in `(x, a]`.
 * `scan_fast_eq_naive`, `scan_spec` : for region-aligned `start ≤ end` and a 1-bit spec,
   `scanFast s m start end = (regions of [start,end) with a non-zero field, ascending, once each)`
-  `= scanSimple … start end`.
+  `= scanSimple … start end`.   **NOW PROVED** (section "the scans" below): `scanFast_eq_scanSpec`
+  (any `start ≤ end`), `scan_fast_eq_naive`, `scan_spec`, `scan_public_spec` (public entry, every width),
+  from `scanBytes_ok` / `scanBits_ok` (each range scanner reports exactly the set bits of its range,
+  ascending), `breakBitRange_partition` (C21) and `metaToData_bit` (Lemmas/SideSearch.lean).
 -/
 namespace Mmtk.SideMeta
 open Mmtk.Mem
@@ -286,5 +290,350 @@ theorem scan_fast_ne_simple_unaligned_end_witness :
     scanFast s m 64 76 = [64] ∧ scanSimple true env s m 64 76 = some [64, 72] ∧
     scanFast s m 64 80 = [64, 72] ∧ scanSimple true env s m 64 80 = some [64, 72] := by
   decide
+
+/-! # the scans: fast = naive = specification -/
+
+/-- `word & (word - 1)` clears exactly the lowest set bit. -/
+theorem testBit_clear_lowest (w c : Nat) (hc : w.testBit c = true) (hlow : ∀ i, i < c → w.testBit i = false) (i : Nat) :
+    (w &&& (w - 1)).testBit i = (w.testBit i && decide (i ≠ c)) := by
+  have hmod : w % 2 ^ (c + 1) = 2 ^ c := by
+    apply Nat.eq_of_testBit_eq
+    intro j
+    rw [Nat.testBit_mod_two_pow, Nat.testBit_two_pow]
+    by_cases hj : j < c
+    · have : c ≠ j := by omega
+      simp [hlow j hj, this]
+    · by_cases hjc : j = c
+      · subst hjc; simp [hc]
+      · have h1 : ¬ j < c + 1 := by omega
+        have h2 : c ≠ j := by omega
+        simp [h1, h2]
+  have hw : w = 2 ^ (c + 1) * (w / 2 ^ (c + 1)) + 2 ^ c := by
+    have := Nat.div_add_mod w (2 ^ (c + 1)); omega
+  generalize w / 2 ^ (c + 1) = h at hw
+  subst hw
+  have hpos := Nat.two_pow_pos c
+  have hlt : 2 ^ c < 2 ^ (c + 1) := Nat.pow_lt_pow_right (by omega) (by omega)
+  have hw1 : 2 ^ (c + 1) * h + 2 ^ c - 1 = 2 ^ (c + 1) * h + (2 ^ c - 1) := by omega
+  rw [Nat.testBit_and, hw1, Nat.testBit_two_pow_mul_add _ hlt, Nat.testBit_two_pow_mul_add _ (by omega : 2 ^ c - 1 < 2 ^ (c + 1))]
+  by_cases hi : i < c + 1
+  · simp only [hi, if_true, Nat.testBit_two_pow, Nat.testBit_two_pow_sub_one]
+    by_cases e : c = i
+    · subst e; simp
+    · have : ¬ i = c := by omega
+      simp [e]
+  · have : i ≠ c := by omega
+    simp [hi, this]
+
+theorem scanWord_eq (ma N : Nat) (hN : N ≤ 64) : ∀ fuel word k, (∀ i, i < k → word.testBit i = false) →
+    word < 2 ^ N → N ≤ fuel + k →
+    scanWord ma fuel word = ((List.range' k (N - k)).filter (fun i => word.testBit i)).map (fun i => (ma, i)) := by
+  intro fuel
+  induction fuel with
+  | zero =>
+    intro word k _ _ hf
+    have : N - k = 0 := by omega
+    simp [scanWord, this]
+  | succ f ih =>
+    intro word k hlow hlt hf
+    simp only [scanWord]
+    by_cases h0 : word = 0
+    · subst h0; simp
+    · simp only [h0, if_false]
+      have hlt64 : word < 2 ^ 64 := Nat.lt_of_lt_of_le hlt (Nat.pow_le_pow_right (by omega) hN)
+      obtain ⟨hc, hb⟩ := ctz_spec word h0 hlt64
+      generalize ctz word = c at hc hb ⊢
+      have hck : k ≤ c := by
+        apply Nat.le_of_not_lt; intro h; have := hlow c h; rw [this] at hc; cases hc
+      have hcN : c < N := by
+        apply Nat.lt_of_not_le; intro h
+        have := Nat.testBit_lt_two_pow (Nat.lt_of_lt_of_le hlt (Nat.pow_le_pow_right (by omega) h))
+        rw [this] at hc; cases hc
+      have hclr := testBit_clear_lowest word c hc hb
+      have hlow' : ∀ i, i < c + 1 → (word &&& (word - 1)).testBit i = false := by
+        intro i hi; rw [hclr i]
+        by_cases e : i = c
+        · simp [e]
+        · simp [hb i (by omega)]
+      rw [ih (word &&& (word - 1)) (c + 1) hlow' (Nat.lt_of_le_of_lt Nat.and_le_left hlt) (by omega)]
+      have esplit : List.range' k (N - k) = List.range' k (c - k) ++ (c :: List.range' (c + 1) (N - (c + 1))) := by
+        have e1 : N - k = (c - k) + ((N - (c + 1)) + 1) := by omega
+        rw [e1, ← List.range'_append_1, List.range'_succ]
+        have : k + (c - k) = c := by omega
+        rw [this]
+      rw [esplit, List.filter_append, List.filter_cons]
+      have e1 : (List.range' k (c - k)).filter (fun i => word.testBit i) = [] := by
+        apply List.filter_eq_nil_iff.2
+        intro i hi
+        have := List.mem_range'_1.1 hi
+        simp [hb i (by omega)]
+      have e2 : (List.range' (c + 1) (N - (c + 1))).filter (fun i => (word &&& (word - 1)).testBit i) =
+          (List.range' (c + 1) (N - (c + 1))).filter (fun i => word.testBit i) := by
+        apply List.filter_congr
+        intro i hi
+        have := List.mem_range'_1.1 hi
+        rw [hclr i]
+        have : i ≠ c := by omega
+        simp [this]
+      rw [e1, e2, hc]; simp
+
+theorem scanWord_byte_ok (m : Mem) (hm : ByteMem m) (a : Nat) : ScanOk m (8 * a) (8 * a + 8) (scanWord a 8 (m a)) := by
+  rw [scanWord_eq a 8 (by omega) 8 (m a) 0 (fun i hi => by omega) (hm a) (by omega)]
+  have := scanOk_of_bits m a 0 8 (fun i => (m a).testBit i) (by omega) (by omega)
+    (fun i hi => by rw [Nat.add_zero, bitAt_mk m a i hi])
+  simpa using this
+
+theorem pow256_8 : (256 : Nat) ^ 8 = 2 ^ 64 := by decide
+
+theorem scanWord_word_ok (m : Mem) (hm : ByteMem m) (a : Nat) :
+    ScanOk m (8 * a) (8 * a + 64) (scanWord a 64 (readLE m a 8)) := by
+  have hlt : readLE m a 8 < 2 ^ 64 := by rw [← pow256_8]; exact HeaderMeta.readLE_lt m hm a 8
+  rw [scanWord_eq a 64 (by omega) 64 _ 0 (fun i hi => by omega) hlt (by omega)]
+  have := scanOk_of_bits m a 0 64 (fun i => (readLE m a 8).testBit i) (by omega) (by omega)
+    (fun i hi => by
+      rw [testBit_readLE m hm, Nat.add_zero]
+      have h1 : (8 * a + i) / 8 = a + i / 8 := by omega
+      have h2 : (8 * a + i) % 8 = i % 8 := by omega
+      have h3 : i < 8 * 8 := by omega
+      unfold bitAt
+      rw [h1, h2]; simp [h3])
+  simpa using this
+
+
+theorem scanHead_ok (m : Mem) (hm : ByteMem m) (E : Nat) : ∀ fuel cursor, cursor ≤ E →
+    cursor ≤ (scanHead m E fuel cursor).2 ∧ (scanHead m E fuel cursor).2 ≤ E ∧
+    ScanOk m (8 * cursor) (8 * (scanHead m E fuel cursor).2) (scanHead m E fuel cursor).1 := by
+  intro fuel
+  induction fuel with
+  | zero => intro c hc; simp only [scanHead]; exact ⟨Nat.le_refl _, hc, scanOk_nil m _⟩
+  | succ f ih =>
+    intro c hc
+    simp only [scanHead]
+    by_cases h : c < E ∧ c % 8 ≠ 0
+    · rw [if_pos h]
+      obtain ⟨h1, h2, h3⟩ := ih (c + 1) (by omega)
+      rcases hp : scanHead m E f (c + 1) with ⟨l, c'⟩
+      rw [hp] at h1 h2 h3
+      simp only at h1 h2 h3 ⊢
+      refine ⟨by omega, h2, ?_⟩
+      have hb := scanWord_byte_ok m hm c
+      have e : 8 * c + 8 = 8 * (c + 1) := by omega
+      rw [e] at hb
+      exact scanOk_append m (by omega) (by omega) hb h3
+    · rw [if_neg h]
+      exact ⟨Nat.le_refl _, hc, scanOk_nil m _⟩
+
+theorem scanWords_ok (m : Mem) (hm : ByteMem m) (E : Nat) : ∀ fuel cursor, cursor ≤ E → E - cursor < fuel * 8 + 8 →
+    cursor ≤ (scanWords m E fuel cursor).2 ∧ (scanWords m E fuel cursor).2 ≤ E ∧
+    E ≤ (scanWords m E fuel cursor).2 + 8 ∧
+    ScanOk m (8 * cursor) (8 * (scanWords m E fuel cursor).2) (scanWords m E fuel cursor).1 := by
+  intro fuel
+  induction fuel with
+  | zero => intro c hc hf; simp only [scanWords]; exact ⟨Nat.le_refl _, hc, by omega, scanOk_nil m _⟩
+  | succ f ih =>
+    intro c hc hf
+    simp only [scanWords]
+    by_cases h : c + 8 < E
+    · rw [if_pos h]
+      obtain ⟨h1, h2, h3, h4⟩ := ih (c + 8) (by omega) (by omega)
+      rcases hp : scanWords m E f (c + 8) with ⟨l, c'⟩
+      rw [hp] at h1 h2 h3 h4
+      simp only at h1 h2 h3 h4 ⊢
+      refine ⟨by omega, h2, h3, ?_⟩
+      have hb := scanWord_word_ok m hm c
+      have e : 8 * c + 64 = 8 * (c + 8) := by omega
+      rw [e] at hb
+      exact scanOk_append m (by omega) (by omega) hb h4
+    · rw [if_neg h]
+      exact ⟨Nat.le_refl _, hc, by omega, scanOk_nil m _⟩
+
+theorem scanTail_ok (m : Mem) (hm : ByteMem m) (E : Nat) : ∀ fuel cursor, cursor ≤ E → E - cursor ≤ fuel →
+    ScanOk m (8 * cursor) (8 * E) (scanTail m E fuel cursor) := by
+  intro fuel
+  induction fuel with
+  | zero =>
+    intro c hc hf
+    have : c = E := by omega
+    subst this
+    simp only [scanTail]; exact scanOk_nil m _
+  | succ f ih =>
+    intro c hc hf
+    simp only [scanTail]
+    by_cases h : c < E
+    · rw [if_pos h]
+      have hb := scanWord_byte_ok m hm c
+      have e : 8 * c + 8 = 8 * (c + 1) := by omega
+      rw [e] at hb
+      exact scanOk_append m (by omega) (by omega) hb (ih (c + 1) (by omega) (by omega))
+    · rw [if_neg h]
+      have : c = E := by omega
+      subst this
+      exact scanOk_nil m _
+
+/-- **`scan_non_zero_bits_in_metadata_bytes`** reports exactly the set bits of `[8·start, 8·end)`, ascending. -/
+theorem scanBytes_ok (m : Mem) (hm : ByteMem m) (S E : Nat) (h : S ≤ E) : ScanOk m (8 * S) (8 * E) (scanBytes m S E) := by
+  obtain ⟨a1, a2, a3⟩ := scanHead_ok m hm E 8 S h
+  obtain ⟨b1, b2, b3, b4⟩ := scanWords_ok m hm E ((E - S) / 8 + 1) (scanHead m E 8 S).2 a2 (by omega)
+  have c := scanTail_ok m hm E 9 (scanWords m E ((E - S) / 8 + 1) (scanHead m E 8 S).2).2 b2 (by omega)
+  have e : scanBytes m S E = (scanHead m E 8 S).1 ++ (scanWords m E ((E - S) / 8 + 1) (scanHead m E 8 S).2).1 ++
+      scanTail m E 9 (scanWords m E ((E - S) / 8 + 1) (scanHead m E 8 S).2).2 := rfl
+  rw [e]
+  exact scanOk_append m (by omega) (by omega) (scanOk_append m (by omega) (by omega) a3 b4) c
+
+theorem and_two_pow_ne_zero (x k : Nat) : decide (x &&& 2 ^ k ≠ 0) = x.testBit k := by
+  by_cases h : x.testBit k = true
+  · have : (x &&& 2 ^ k).testBit k = true := by rw [Nat.testBit_and, Nat.testBit_two_pow, h]; simp
+    have hne : x &&& 2 ^ k ≠ 0 := by intro c; rw [c] at this; simp at this
+    simp [h, hne]
+  · have hz : x &&& 2 ^ k = 0 := by
+      apply Nat.eq_of_testBit_eq
+      intro j
+      rw [Nat.testBit_and, Nat.testBit_two_pow, Nat.zero_testBit]
+      by_cases e : k = j
+      · subst e; simp [h]
+      · simp [e]
+    simp [h, hz]
+
+/-- **`scan_non_zero_bits_in_metadata_bits`** reports exactly the set bits of `[bs, be)` of its byte, ascending. -/
+theorem scanBits_ok (m : Mem) (_hm : ByteMem m) (a bs be : Nat) (h1 : bs < be) (h2 : be ≤ 8) :
+    ScanOk m (8 * a + bs) (8 * a + be) (scanBits m a bs be) := by
+  unfold scanBits
+  have e0 : (List.range (be - bs)).map (· + bs) = (List.range' 0 (be - bs)).map (fun i => bs + i) := by
+    rw [List.range_eq_range']
+    apply List.map_congr_left; intro i _; omega
+  rw [e0, List.filterMap_map]
+  have e1 : ((fun bit => if (m a &&& ((1 <<< bit) % 256)) ≠ 0 then some (a, bit) else none) ∘ fun i => bs + i) =
+      fun i => if (m a &&& ((1 <<< (bs + i)) % 256)) ≠ 0 then some ((fun i => (a, bs + i)) i) else none := rfl
+  rw [e1, filterMap_ite (fun i => (m a &&& ((1 <<< (bs + i)) % 256)) ≠ 0) (fun i => (a, bs + i))]
+  have := scanOk_of_bits m a bs (be - bs) (fun i => decide ((m a &&& ((1 <<< (bs + i)) % 256)) ≠ 0)) (by omega) (by omega)
+    (fun i hi => by
+      have hlt : bs + i < 8 := by omega
+      have e : 8 * a + bs + i = 8 * a + (bs + i) := by omega
+      rw [e, bitAt_mk m a _ hlt, Nat.one_shiftLeft,
+        Nat.mod_eq_of_lt (Nat.lt_of_lt_of_le (Nat.pow_lt_pow_right (by omega) hlt) (by decide : 2 ^ 8 ≤ 256)),
+        and_two_pow_ne_zero])
+  have e2 : 8 * a + bs + (be - bs) = 8 * a + be := by omega
+  rw [e2] at this
+  exact this
+
+theorem scanRange_ok (m : Mem) (hm : ByteMem m) (r : BBR) (hw : r.wf) : ScanOk m r.lo r.hi (scanRange m r) := by
+  cases r with
+  | bytes s e => exact scanBytes_ok m hm s e (Nat.le_of_lt hw)
+  | bits a bs be => exact scanBits_ok m hm a bs be hw.1 hw.2
+
+
+/-! ## the fast scan -/
+
+theorem scanFast_eq_flat (s : Spec) (m : Mem) (a b : Nat) :
+    scanFast s m a b = ((breakBitRange (metaAddr s a) (lshift s a) (metaAddr s b) (lshift s b) true).flatMap
+      (scanRange m)).map (fun ab => metaToData s ab.1 ab.2) := by
+  unfold scanFast
+  rw [List.map_flatMap]
+  congr 1
+
+/-- **the fast scan computes the specification** — for *any* `start ≤ end` (the regions visited are
+`⌊start/R⌋ … ⌊end/R⌋ − 1`; they are the regions of `[start, end)` when both are region-aligned). -/
+theorem scanFast_eq_scanSpec (s : Spec) (hs : s.ok) (h0 : s.logBits = 0) (m : Mem) (hm : ByteMem m)
+    (dStart dEnd : Nat) (hle : dStart ≤ dEnd) (h64 : dEnd < 2 ^ 64) :
+    scanFast s m dStart dEnd = scanSpec s m dStart dEnd := by
+  have hR := Nat.two_pow_pos s.logRegion
+  obtain ⟨e1, e2, b1, b2, ho⟩ := bulk_interval s hs dStart (dEnd - dStart) (by omega)
+  have eE : dStart + (dEnd - dStart) = dEnd := by omega
+  rw [eE] at e2 b2 ho
+  have ht := breakBitRange_partition _ _ _ _ b1 b2 ho
+  rw [e1, e2] at ht
+  obtain ⟨k1, k2⟩ := scanOk_tiles m (scanRange_ok m hm) ht
+  simp only [Nat.shiftRight_eq_div_pow] at k1 k2
+  have hq : dStart / 2 ^ s.logRegion ≤ dEnd / 2 ^ s.logRegion := Nat.div_le_div_right hle
+  have hq1 : dEnd / 2 ^ s.logRegion * 2 ^ s.logRegion ≤ dEnd := Nat.div_mul_le_self ..
+  rw [scanFast_eq_flat]
+  unfold scanSpec
+  generalize dStart / 2 ^ s.logRegion = q0 at k1 k2 hq ⊢
+  generalize dEnd / 2 ^ s.logRegion = q1 at k1 k2 hq hq1 ⊢
+  generalize (breakBitRange (metaAddr s dStart) (lshift s dStart) (metaAddr s dEnd) (lshift s dEnd) true).flatMap (scanRange m) = l at k1 k2
+  have hfb : ∀ r, fieldBase s r = 8 * s.start + r := by intro r; unfold fieldBase; rw [h0]; simp
+  have step : l.map (fun ab => metaToData s ab.1 ab.2) = (l.map pos).map (fun p => (p - 8 * s.start) * 2 ^ s.logRegion) := by
+    rw [List.map_map]
+    apply List.map_congr_left
+    intro ab hab
+    have hp : pos ab ∈ bitsIn m (fieldBase s q0) (fieldBase s q1) := by
+      rw [← k1]; exact List.mem_map_of_mem hab
+    obtain ⟨p1, p2, _⟩ := (mem_bitsIn m _ _ _).1 hp
+    obtain ⟨p3, _⟩ := k2 ab hab
+    rw [hfb] at p1 p2 p3
+    unfold pos at p1 p2
+    have hst : s.start ≤ ab.1 := by omega
+    have hlt : (ab.1 - s.start) * 8 + ab.2 < q1 := by omega
+    have := Nat.mul_lt_mul_of_pos_right hlt hR
+    rw [metaToData_bit s h0 ab.1 ab.2 (Nat.lt_of_lt_of_le this (by omega))]
+    simp only [Function.comp, pos]
+    congr 1
+    omega
+  rw [step, k1, bits_to_regions s hs h0 m hm _ _ hq (by omega)]
+
+/-- membership in the specification list (region-aligned bounds). -/
+theorem mem_scanSpec (s : Spec) (m : Mem) (dStart dEnd : Nat)
+    (h1 : dStart % 2 ^ s.logRegion = 0) (h2 : dEnd % 2 ^ s.logRegion = 0) (x : Nat) :
+    x ∈ scanSpec s m dStart dEnd ↔ (dStart ≤ x ∧ x < dEnd ∧ x % 2 ^ s.logRegion = 0 ∧ load s m x ≠ 0) := by
+  have hR := Nat.two_pow_pos s.logRegion
+  obtain ⟨q0, rfl⟩ : ∃ q0, dStart = q0 * 2 ^ s.logRegion := ⟨_, (aligned_eq dStart s.logRegion h1).symm⟩
+  obtain ⟨q1, rfl⟩ : ∃ q1, dEnd = q1 * 2 ^ s.logRegion := ⟨_, (aligned_eq dEnd s.logRegion h2).symm⟩
+  unfold scanSpec
+  rw [Nat.mul_div_cancel _ hR, Nat.mul_div_cancel _ hR]
+  simp only [List.mem_filter, List.mem_map, List.mem_range'_1, decide_eq_true_eq]
+  constructor
+  · rintro ⟨⟨r, ⟨a, b⟩, rfl⟩, c⟩
+    exact ⟨Nat.mul_le_mul_right _ a, Nat.mul_lt_mul_of_pos_right (by omega) hR, Nat.mul_mod_left .., c⟩
+  · rintro ⟨a, b, c, d⟩
+    obtain ⟨r, rfl⟩ : ∃ r, x = r * 2 ^ s.logRegion := ⟨_, (aligned_eq x s.logRegion c).symm⟩
+    have a' := Nat.le_of_mul_le_mul_right a hR
+    have b' := Nat.lt_of_mul_lt_mul_right b
+    exact ⟨⟨r, ⟨a', by omega⟩, rfl⟩, d⟩
+
+theorem scanSpec_sorted (s : Spec) (m : Mem) (dStart dEnd : Nat) : (scanSpec s m dStart dEnd).Pairwise (· < ·) := by
+  have hR := Nat.two_pow_pos s.logRegion
+  unfold scanSpec
+  apply List.Pairwise.filter
+  rw [List.pairwise_map]
+  exact (List.pairwise_lt_range' (s := _) (n := _)).imp (fun h => Nat.mul_lt_mul_of_pos_right h hR)
+
+/-- **C22 (scan, fast = naive)**: for a 1-bit spec and region-aligned `start ≤ end` the word-at-a-time
+scan returns exactly what the region-by-region scan returns (whose `debug_assert!` needs the visited
+region starts mapped in a debug build). -/
+theorem scan_fast_eq_naive (debug : Bool) (env : MapEnv) (s : Spec) (hs : s.ok) (h0 : s.logBits = 0)
+    (m : Mem) (hm : ByteMem m) (dStart dEnd : Nat)
+    (h1 : dStart % 2 ^ s.logRegion = 0) (h2 : dEnd % 2 ^ s.logRegion = 0) (hle : dStart ≤ dEnd) (h64 : dEnd < 2 ^ 64)
+    (hmap : debug = true → ∀ x, dStart ≤ x → x < dEnd → x % 2 ^ s.logRegion = 0 → env.mapped x = true) :
+    scanSimple debug env s m dStart dEnd = some (scanFast s m dStart dEnd) := by
+  rw [scanFast_eq_scanSpec s hs h0 m hm dStart dEnd hle h64]
+  exact scanSimple_eq_spec debug env s m dStart dEnd h1 h2 hle hmap
+
+/-- **C22 (scan, specification)**: the fast scan visits exactly the region starts of `[start, end)`
+whose field is non-zero, in strictly ascending order (hence once each). -/
+theorem scan_spec (s : Spec) (hs : s.ok) (h0 : s.logBits = 0) (m : Mem) (hm : ByteMem m) (dStart dEnd : Nat)
+    (h1 : dStart % 2 ^ s.logRegion = 0) (h2 : dEnd % 2 ^ s.logRegion = 0) (hle : dStart ≤ dEnd) (h64 : dEnd < 2 ^ 64) :
+    (∀ x, x ∈ scanFast s m dStart dEnd ↔ (dStart ≤ x ∧ x < dEnd ∧ x % 2 ^ s.logRegion = 0 ∧ load s m x ≠ 0)) ∧
+    (scanFast s m dStart dEnd).Pairwise (· < ·) := by
+  rw [scanFast_eq_scanSpec s hs h0 m hm dStart dEnd hle h64]
+  exact ⟨mem_scanSpec s m dStart dEnd h1 h2, scanSpec_sorted s m dStart dEnd⟩
+
+/-- **C22 (public `scan_non_zero_values`, every field width)**: the result is the specification list. -/
+theorem scan_public_spec (debug : Bool) (env : MapEnv) (s : Spec) (hs : s.ok) (m : Mem) (hm : ByteMem m) (dStart dEnd : Nat)
+    (h1 : dStart % 2 ^ s.logRegion = 0) (h2 : dEnd % 2 ^ s.logRegion = 0) (hle : dStart ≤ dEnd) (h64 : dEnd < 2 ^ 64)
+    (hmap : debug = true → ∀ x, dStart ≤ x → x < dEnd → x % 2 ^ s.logRegion = 0 → env.mapped x = true) :
+    scan debug env s m dStart dEnd = some (scanSpec s m dStart dEnd) ∧
+    (∀ x, x ∈ scanSpec s m dStart dEnd ↔ (dStart ≤ x ∧ x < dEnd ∧ x % 2 ^ s.logRegion = 0 ∧ load s m x ≠ 0)) ∧
+    (scanSpec s m dStart dEnd).Pairwise (· < ·) := by
+  refine ⟨?_, mem_scanSpec s m dStart dEnd h1 h2, scanSpec_sorted s m dStart dEnd⟩
+  unfold scan
+  by_cases h0 : s.logBits = 0
+  · rw [if_pos h0, scanFast_eq_scanSpec s hs h0 m hm dStart dEnd hle h64]
+  · rw [if_neg h0]; exact scanSimple_eq_spec debug env s m dStart dEnd h1 h2 hle hmap
+
+/-- the hypotheses are satisfiable by a non-trivial state: 8-byte regions, bits of regions 8, 9, 17 set. -/
+example : let s : Spec := { start := 1000, logBits := 0, logRegion := 3 }
+    let m : Mem := fun x => if x = 1001 then 3 else if x = 1002 then 2 else 0
+    s.ok ∧ s.logBits = 0 ∧ (64 % 2 ^ s.logRegion = 0) ∧ (160 % 2 ^ s.logRegion = 0) ∧
+    scanFast s m 64 160 = [64, 72, 136] ∧ scanSpec s m 64 160 = [64, 72, 136] := by decide
 
 end Mmtk.SideMeta
